@@ -2,10 +2,11 @@
 import _dbprop, dbcheck
 PROP = "C03"
 def run(tier, seed):
-    return _dbprop.run(PROP, tier, seed, [("txn", 14, 300), ("atom", 10, 200), ("reopen", 6, 60)],
+    return _dbprop.run(PROP, tier, seed, [("txn", 14, 300), ("atom", 10, 200), ("reopen", 6, 60), ("uniq", 6, 100)],
         ["exact deviation UpdateStampsCreator (an UPDATE survives ROLLBACK; pinned by tests/mod.rs:110-126) is part of the as-built specification",
          "open transactions write disjoint rows (partitioned ids): overlapping writers are the recorded finding NoWriteSetValidation",
-         "in sessions only single-row statements are made to fail (finding SessionStatementNotAtomic)"],
+         "in sessions only single-row statements are made to fail (finding SessionStatementNotAtomic)",
+         "kind uniq: what a rolled-back INSERT or DELETE leaves in a unique index must not change which keys are accepted afterwards"],
         "segments interleave up to 3 sessions with autocommit calls; every rollback / session drop / failing statement is followed by reads from other transactions; distinct_nontrivial = statements validated",
         mc=("MC_Txn.cfg", "MC_Txn_thorough.cfg"))
 def replay(path, seed):
